@@ -1,11 +1,12 @@
 """C14 — dispatch runs each operation on exactly the cores it belongs to.
 
-case  = a generated function as a small JSON tree (rendered to MLIR here) + nb_cores
+case  = a generated MODULE as a small JSON tree (rendered to MLIR here) + nb_cores: 1-3 functions with bodies of every
+        visibility (public / private / no keyword), possibly an external declaration, calls between them
 impl  = the REAL pass DispatchRegions(nb_cores) applied in-process to the parsed module (every op of the input
         carries an id attribute), converted to the model AST; the REAL rules evaluated on every op; per-core
         executions of the emitted IR (interpreter below)
 model = Lean: c14.rules on the op descriptors, c14.dispatch on the converted input, c14.run on the model's output
-oracle= per core id: execute the emitted IR (core-id call, constants, compares and guards interpreted concretely)
+oracle= per function with a body (each is an entry point, callees are entered), per core id: execute the emitted IR (core-id call, constants, compares and guards interpreted concretely)
         and compare the executed op ids with the original execution filtered by the real rules; the same after
         xDSL's function-constant-pinning (whole module and every pinned specialisation)
 """
@@ -84,6 +85,8 @@ class Render:
             return _dart(ind, None, "i64")
         if k == "unreg":
             return _dart(ind, "snax_nonexistent", "i64")
+        if k == "call":  # ["call", callee name]: a call of another function of the module (or of a declaration)
+            return f'{ind}func.call @{node[1]}({", ".join(ARG_NAMES)}) : ({", ".join(ARG_TYPES)}) -> ()'
         if k == "sync":
             return f'{ind}"snax.cluster_sync_op"() : () -> ()'
         if k == "op":  # ["op", nres, nuses]
@@ -140,7 +143,7 @@ class Render:
                 out.append(self.leaf(node, ind, vis))
         return out
 
-    def func(self, blocks):
+    def func(self, blocks, name="f", vis="public"):
         body = []
         for bi, bb in enumerate(blocks):
             if bi > 0:
@@ -157,15 +160,34 @@ class Render:
                 pass
             else:
                 raise ValueError("bad term")
-        hdr = (f"func.func public @f(%a : {T64}, %b : {T64}, %c : {T64}, %x : {T32}, %y : {T32}, %z : {T32}, %t : {TT}, "
+        vis_kw = f"{vis} " if vis else ""
+        hdr = (f"func.func {vis_kw}@{name}(%a : {T64}, %b : {T64}, %c : {T64}, %x : {T32}, %y : {T32}, %z : {T32}, %t : {TT}, "
                f"%c0 : i1, %c1 : i1, %lb : index, %ub : index, %st : index) {{\n")
         return hdr + "\n".join(body) + "\n}\n"
+
+
+ARG_TYPES = [T64, T64, T64, T32, T32, T32, TT, "i1", "i1", "index", "index", "index"]
+ARG_NAMES = ["%a", "%b", "%c", "%x", "%y", "%z", "%t", "%c0", "%c1", "%lb", "%ub", "%st"]
+
+
+def case_funcs(case):
+    """the functions of a case: new format {"funcs": [{"name", "vis", "blocks" | None}]}; old format = one public @f"""
+    if "funcs" in case:
+        return case["funcs"]
+    return [{"name": "f", "vis": "public", "blocks": case["blocks"]}]
 
 
 def render(case):
     if "src" in case:
         return case["src"]
-    return Render().func(case["blocks"])
+    out = []
+    for fn in case_funcs(case):
+        if fn["blocks"] is None:  # external declaration
+            vis_kw = f"{fn['vis']} " if fn["vis"] else ""
+            out.append(f"func.func {vis_kw}@{fn['name']}({', '.join(ARG_TYPES)}) -> ()\n")
+        else:
+            out.append(Render().func(fn["blocks"], fn["name"], fn["vis"]))
+    return "".join(out)
 
 
 # ------------------------------------------------------------------------------------------------
@@ -215,7 +237,7 @@ def gen_ops(rng, depth, n, mal):
     return out
 
 
-def gen_case(rng, tier, mal=False):
+def gen_blocks(rng, tier, mal):
     nblocks = rng.choice([1, 1, 1, 2, 2, 3]) if tier == "quick" else rng.choice([1, 1, 2, 2, 3, 3, 4])
     depth = rng.choice([1, 2, 2, 3]) if tier == "quick" else rng.choice([1, 2, 3, 3, 4])
     blocks = []
@@ -234,7 +256,43 @@ def gen_case(rng, tier, mal=False):
             else:
                 term = ["ret"]
         blocks.append({"ops": ops, "term": term})
-    return {"kind": "malformed" if mal else f"prog{nblocks}", "blocks": blocks, "nb": rng.choice([1, 2, 2, 2, 3, 3, 4, 5]),
+    return blocks
+
+
+def insert_call(rng, ops, callee):
+    """put a call of `callee` somewhere in the op tree (any depth)"""
+    if ops and rng.random() < 0.5:
+        cands = [n for n in ops if n[0] in ("if", "for", "top")]
+        if cands:
+            n = rng.choice(cands)
+            sub = n[2] if n[0] == "if" else n[1] if n[0] == "for" else rng.choice(n[1])
+            return insert_call(rng, sub, callee)
+    ops.insert(rng.randint(0, len(ops)), ["call", callee])
+
+
+def gen_case(rng, tier, mal=False):
+    """a module: 1-3 functions with bodies (public / private / no visibility keyword; a function may call later ones)
+    and possibly an external declaration (which may be called too)"""
+    nf = rng.choice([1, 1, 1, 2, 2, 3])
+    funcs = []
+    for i in range(nf):
+        vis = rng.choice(["public", "public", "private", "private", None])
+        funcs.append({"name": f"f{i}", "vis": vis, "blocks": gen_blocks(rng, tier, mal)})
+    if rng.random() < 0.3:
+        # declarations must be private; the malformed stream also tries the other visibilities
+        funcs.insert(rng.randint(0, len(funcs)), {"name": "ext", "vis": rng.choice(["public", None]) if mal and rng.random() < 0.3 else "private",
+                                                  "blocks": None})
+    names = [f["name"] for f in funcs if f["blocks"] is not None]
+    for i, caller in enumerate(names[:-1]):
+        for callee in names[i + 1:]:
+            if rng.random() < 0.7:
+                fn = next(f for f in funcs if f["name"] == caller)
+                insert_call(rng, rng.choice(fn["blocks"])["ops"], callee)
+    if any(f["name"] == "ext" for f in funcs) and rng.random() < 0.6:
+        who = rng.choice(names)
+        fn = next(f for f in funcs if f["name"] == who)
+        insert_call(rng, rng.choice(fn["blocks"])["ops"], "ext")
+    return {"kind": "malformed" if mal else f"mod{nf}", "funcs": funcs, "nb": rng.choice([1, 2, 2, 2, 3, 3, 4, 5]),
             "xseed": rng.getrandbits(16)}
 
 
@@ -266,14 +324,19 @@ def get_id(op):
     return None if a is None else a.value.data
 
 
-def annotate(func_op):
+def annotate(mod):
+    """every op inside every function of the module gets a module-wide unique id"""
+    from xdsl.dialects import func
     from xdsl.dialects.builtin import IntegerAttr, i64
     n = 0
-    for op in func_op.walk():
-        if op is func_op:
+    for f in mod.ops:
+        if not isinstance(f, func.FuncOp):
             continue
-        n += 1
-        op.attributes[ID] = IntegerAttr(n, i64)
+        for op in f.walk():
+            if op is f:
+                continue
+            n += 1
+            op.attributes[ID] = IntegerAttr(n, i64)
     return n
 
 
@@ -450,20 +513,21 @@ class Interp:
     decisions come from std_orc(seed, id, kind, dynamic path). Ops without id (inserted by dispatch-regions or by
     function-constant-pinning) are interpreted concretely."""
 
-    def __init__(self, mod, core, seed):
-        self.mod, self.core, self.seed = mod, core, seed
+    def __init__(self, mod, core, seed, follow=True):
+        # follow: execute the body of a called function of the module (the Lean model has no calls: follow=False there)
+        self.mod, self.core, self.seed, self.follow = mod, core, seed, follow
         self.trace = []
         self.calls = 0
 
-    def run_func(self, name, fuel=FUEL, entry=0):
+    def run_func(self, name, fuel=FUEL, entry=0, base=()):
         f = find_func(self.mod, name)
         blocks = list(f.body.blocks)
-        env = {}
+        env = {"__base__": list(base)}
         cur = entry
         n = fuel
         while n > 0 and 0 <= cur < len(blocks):
             n -= 1
-            r = self.block(blocks[cur], env, [n], blocks)
+            r = self.block(blocks[cur], env, [n] + list(base), blocks)
             if r is None or r[0] == "ret":
                 return
             cur = r[1]
@@ -480,9 +544,9 @@ class Interp:
                         env[op.results[0]] = self.core
                     else:
                         self.calls += 1
-                        if self.calls > 50:
-                            raise Unsupported("call depth")
-                        self.run_func(name)
+                        if self.calls > 20000:
+                            raise Unsupported("call budget")
+                        self.run_func(name, base=env["__base__"])  # a pinned clone continues the same activation
                 elif isinstance(op, arith.ConstantOp):
                     env[op.result] = op.value.value.data
                 elif isinstance(op, arith.CmpiOp):
@@ -511,6 +575,13 @@ class Interp:
                 return None
             if descriptor(op) != ["other"] or not op.regions:
                 self.trace.append(i)
+                if self.follow and isinstance(op, func.CallOp):
+                    callee = has_body(self.mod, op.callee.string_value())
+                    if callee:
+                        self.calls += 1
+                        if self.calls > 20000:
+                            raise Unsupported("call budget")
+                        self.run_func(callee, base=[i] + path)
                 continue
             self.trace.append(i)
             kind = 0 if isinstance(op, scf.IfOp) else 1 if isinstance(op, scf.ForOp) else 2
@@ -520,14 +591,28 @@ class Interp:
         return None
 
 
-def trace_of(mod, core, seed, name=None):
-    it = Interp(mod, core, seed)
+def has_body(mod, name):
+    from xdsl.dialects import func
+    for o in mod.ops:
+        if isinstance(o, func.FuncOp) and o.sym_name.data == name and o.body.blocks:
+            return name
+    return None
+
+
+def trace_of(mod, core, seed, name=None, follow=True):
+    it = Interp(mod, core, seed, follow)
     it.run_func(name or find_func(mod).sym_name.data)
     return it.trace
 
 
+def funcs_of(mod):
+    """all func.func ops of the module except the declaration the pass inserts"""
+    from xdsl.dialects import func
+    return [o for o in mod.ops if isinstance(o, func.FuncOp) and o.sym_name.data != "snax_cluster_core_idx"]
+
+
 def real_rules(func_op):
-    """id -> (dm, cp) by the REAL rules, for every op of the function"""
+    """id -> (dm, cp) by the REAL rules, for every op (with an id) inside func_op / the module"""
     from snaxc.util.dispatching_rules import dispatch_to_compute, dispatch_to_dm
     ctx = the_ctx()
     out = {}
@@ -587,11 +672,10 @@ def parse_input(case):
     try:
         mod = Parser(the_ctx(), render(case)).parse_module()
         mod.verify()
-        f = find_func(mod)
     except BaseException as e:
         raise Invalid(type(e).__name__)
-    annotate(f)
-    return mod, f
+    annotate(mod)
+    return mod
 
 
 def apply_dispatch(mod, nb):
@@ -626,7 +710,9 @@ class C14(Prop):
         "SSA validity of the output is outside the property: a dispatchable op whose result is used after it is moved under the "
         "guard without yielding the result (observed, reported in the notes)",
     ]
-    rule = ("random functions: 1-3 (thorough 1-4) blocks with cf.br/cf.cond_br incl. back edges, nested scf.if (with/without else, "
+    rule = ("random modules of 1-3 functions with bodies (public / private / no visibility keyword, earlier functions may call later "
+            "ones at any depth) and optionally an external declaration (which may be called); every (visibility x small body), "
+            "caller/callee visibility pair and declaration module enumerated on every run; per function: 1-3 (thorough 1-4) blocks with cf.br/cf.cond_br incl. back edges, nested scf.if (with/without else, "
             "with results) / scf.for / unknown ops with 1-3 regions, leaves memref.copy, linalg.generic (memref and tensor form), "
             "dart.operation on snax_alu / snax_xdma (extension kernel, other kernel, non-generic body), cluster_sync, test.op with "
             "results and uses, runs of adjacent equal ops; nb_cores 1..5; malformed stream: streaming regions without / with an "
@@ -638,6 +724,7 @@ class C14(Prop):
         for i in range(n):
             yield gen_case(random.Random(rng.getrandbits(48)), tier, mal=(i % 12 == 11))
         yield from self.upstream()
+        yield from self.visibilities()
         if tier == "thorough":
             yield from self.exhaustive()
 
@@ -657,6 +744,25 @@ class C14(Prop):
                 for nb in (2, 3):
                     yield {"kind": "upstream", "src": src, "nb": nb, "xseed": i}
 
+    def visibilities(self):
+        """every visibility (public / private / no keyword) x {copy, gen, copy in a loop} for a single function, a caller/callee
+        pair of every visibility combination, and a module with an external declaration"""
+        bodies = [[["copy"]], [["gen"]], [["for", [["copy"], ["op", 0, 0], ["gen"]]]]]
+        viss = ["public", "private", None]
+        for v in viss:
+            for ops in bodies:
+                yield {"kind": "vis1", "funcs": [{"name": "f0", "vis": v, "blocks": [{"ops": ops, "term": ["ret"]}]}], "nb": 2, "xseed": 11}
+        for v0 in viss:
+            for v1 in viss:
+                yield {"kind": "vis2", "nb": 3, "xseed": 12, "funcs": [
+                    {"name": "f0", "vis": v0, "blocks": [{"ops": [["copy"], ["sync"], ["call", "f1"], ["sync"], ["copy"]], "term": ["ret"]}]},
+                    {"name": "f1", "vis": v1, "blocks": [{"ops": [["for", [["copy"], ["sync"], ["gen"], ["sync"]]], ["copy"]], "term": ["ret"]}]}]}
+        for v in viss:
+            yield {"kind": "visdecl", "nb": 2, "xseed": 13, "funcs": [
+                {"name": "ext", "vis": "private", "blocks": None},
+                {"name": "f0", "vis": v, "blocks": [{"ops": [["call", "ext"], ["copy"], ["gen"]], "term": ["ret"]}]}]}
+        yield {"kind": "visdecl", "nb": 2, "xseed": 14, "funcs": [{"name": "ext", "vis": "private", "blocks": None}]}
+
     def exhaustive(self):
         """every straight-line block of <= 4 ops over {copy, gen, op, alu} x nb in {2,3}, and every 2-block split of it"""
         import itertools
@@ -673,58 +779,72 @@ class C14(Prop):
 
     # -- implementation ------------------------------------------------------------------------
     def impl(self, case):
+        from xdsl.traits import IsTerminator
         from snaxc.util.dispatching_rules import dispatch_to_compute, dispatch_to_dm
         try:
-            mod, f = parse_input(case)
+            mod = parse_input(case)
         except Invalid as e:
             return {"invalid_input": str(e)}
+        names = [f.sym_name.data for f in funcs_of(mod)]
         try:
-            inp = Conv(f).func()
+            inputs = [Conv(f).func() for f in funcs_of(mod)]
         except Unsupported as e:
             return {"invalid_input": f"outside the model: {e}"}
         rules = []
-        for op in f.walk():
+        for op in mod.walk():
             i = get_id(op)
-            if i is not None and not op.has_trait(__import__("xdsl.traits", fromlist=["IsTerminator"]).IsTerminator, value_if_unregistered=False):
+            if i is not None and not op.has_trait(IsTerminator, value_if_unregistered=False):
                 d = descriptor(op)
                 if d != ["other"] or not op.regions:
                     rules.append([i, d, rule_outcome(dispatch_to_dm, op), rule_outcome(dispatch_to_compute, op)])
         nb = case["nb"]
         orig = mod.clone()
+        base = {"names": names, "inputs": inputs, "rules": rules}
         try:
             apply_dispatch(mod, nb)
         except BaseException as e:
-            return {"input": inp, "rules": rules, "raised": type(e).__name__}
+            return dict(base, raised=type(e).__name__)
+        after = funcs_of(mod)
+        if [f.sym_name.data for f in after] != names:
+            return dict(base, convert_error=f"functions after the pass: {[f.sym_name.data for f in after]}")
         try:
-            outf = Conv(find_func(mod)).func()
+            outs = [Conv(f).func() for f in after]
         except Unsupported as e:
-            return {"input": inp, "rules": rules, "convert_error": str(e)}
+            return dict(base, convert_error=str(e))
+        # per function (without entering callees: the model has no calls), per core, per decision seed
         traces = []
-        for s in seeds_of(case, 2):
-            for core in range(nb):
-                traces.append([core, s, trace_of(mod, core, s)])
-            traces.append([-1, s, trace_of(orig, 0, s)])
-        return {"input": inp, "rules": rules, "func": outf, "decl": has_decl(mod), "traces": traces, "filtered": traces}
+        for fi, f in enumerate(after):
+            if not f.body.blocks:
+                continue
+            for s in seeds_of(case, 2):
+                for core in range(nb):
+                    traces.append([fi, core, s, trace_of(mod, core, s, names[fi], follow=False)])
+                traces.append([fi, -1, s, trace_of(orig, 0, s, names[fi], follow=False)])
+        vis = [None if f.sym_visibility is None else f.sym_visibility.data for f in after]
+        vis0 = [None if f.sym_visibility is None else f.sym_visibility.data for f in funcs_of(orig)]
+        return dict(base, funcs=outs, decl=has_decl(mod), traces=traces, filtered=traces, visibility_kept=(vis == vis0))
 
     # -- model ---------------------------------------------------------------------------------
     def requests(self, case, impl_out):
-        if "input" not in impl_out:
+        if "inputs" not in impl_out:
             return []
         reqs = [{"fn": "c14.rules", "args": {"kind": r[1]}} for r in impl_out["rules"]]
-        reqs.append({"fn": "c14.dispatch", "args": {"nb": case["nb"], "func": impl_out["input"], "fixed": self.FIXED}})
-        for core, s, _ in impl_out.get("traces", []):
+        for inp in impl_out["inputs"]:  # the pattern is applied to every func.func of the module independently
+            reqs.append({"fn": "c14.dispatch", "args": {"nb": case["nb"], "func": inp, "fixed": self.FIXED}})
+        for fi, core, s, _ in impl_out.get("traces", []):
             # the Lean semantics on the converted REAL output (ties runF to the interpreter) ...
-            fn = impl_out["input"] if core < 0 else impl_out["func"]
+            fn = impl_out["inputs"][fi] if core < 0 else impl_out["funcs"][fi]
             reqs.append({"fn": "c14.run", "args": {"func": fn, "core": max(core, 0), "seed": s, "fuel": FUEL, "entry": 0}})
             # ... and the right-hand side of C14_dispatch on the input (the theorem instance itself)
-            reqs.append({"fn": "c14.filtered", "args": {"func": impl_out["input"], "nb": case["nb"] if core >= 0 else 1,
+            reqs.append({"fn": "c14.filtered", "args": {"func": impl_out["inputs"][fi], "nb": case["nb"] if core >= 0 else 1,
                                                        "core": max(core, 0), "seed": s, "fuel": FUEL, "entry": 0}})
         return reqs
 
     def model(self, case, answers, impl_out):
-        if "input" not in impl_out:
+        if "inputs" not in impl_out:
             return impl_out
         nr = len(impl_out["rules"])
+        nf = len(impl_out["inputs"])
         rules = []
         for r, a in zip(impl_out["rules"], answers[:nr]):
             if "err" in a:
@@ -732,16 +852,21 @@ class C14(Prop):
             rules.append([r[0], r[1], a["ok"]["dm"], a["ok"]["cp"]])
             if r[1][0] == "stream" and r[1][2] and False not in r[1][3]:
                 return {"model_error": "hypothesis OneExtDiffers of rules_exclusive / rules_match_spec_partial does not hold for XDMA_EXT_SET"}
-        d = answers[nr]
-        if "err" in d:
-            return {"model_error": d["err"]}
-        if "raised" in d["ok"]:
-            return {"input": impl_out["input"], "rules": rules, "raised": d["ok"]["raised"]}
-        out = {"input": impl_out["input"], "rules": rules, "func": d["ok"]["func"], "decl": d["ok"]["decl"]}
+        base = {"names": impl_out["names"], "inputs": impl_out["inputs"], "rules": rules}
+        outs = []
+        decl = False
+        for d in answers[nr:nr + nf]:
+            if "err" in d:
+                return {"model_error": d["err"]}
+            if "raised" in d["ok"]:  # functions are rewritten in module order: the first one whose rules raise aborts the pass
+                return dict(base, raised=d["ok"]["raised"])
+            outs.append(d["ok"]["func"])
+            decl = decl or d["ok"]["decl"]
+        out = dict(base, funcs=outs, decl=decl, visibility_kept=True)
         if "traces" in impl_out:
-            rest = answers[nr + 1:]
-            out["traces"] = [[core, s, a.get("ok", a)] for (core, s, _), a in zip(impl_out["traces"], rest[0::2])]
-            out["filtered"] = [[core, s, a.get("ok", a)] for (core, s, _), a in zip(impl_out["traces"], rest[1::2])]
+            rest = answers[nr + nf:]
+            out["traces"] = [[fi, core, s, a.get("ok", a)] for (fi, core, s, _), a in zip(impl_out["traces"], rest[0::2])]
+            out["filtered"] = [[fi, core, s, a.get("ok", a)] for (fi, core, s, _), a in zip(impl_out["traces"], rest[1::2])]
         return out
 
     # -- property on the implementation ----------------------------------------------------------
@@ -749,16 +874,16 @@ class C14(Prop):
         if "invalid_input" in impl_out:
             return []
         try:
-            mod, f = parse_input(case)
+            mod = parse_input(case)
         except Invalid:
             return []
         nb = case["nb"]
         try:
-            cls = real_rules(f)
+            cls = real_rules(mod)
         except BaseException as e:
             from snaxc.dialects import dart
             names = set(the_ctx().registered_accelerator_names)
-            if any(isinstance(o, dart.StreamingRegionOpBase) and (not o.accelerator or o.accelerator.data not in names) for o in f.walk()):
+            if any(isinstance(o, dart.StreamingRegionOpBase) and (not o.accelerator or o.accelerator.data not in names) for o in mod.walk()):
                 return []  # malformed program (streaming region without a registered accelerator): the pass cannot run
             return [{"what": f"a dispatching rule raised {type(e).__name__} on a well-formed program: {str(e)[:200]}", "finding": None}]
         orig = mod.clone()
@@ -773,7 +898,7 @@ class C14(Prop):
             return [{"what": f"output of dispatch-regions does not verify: {type(e).__name__}: {str(e)[:200]}", "finding": None}]
         # the rules against the classes of the property
         res = []
-        for op in f.walk():
+        for op in mod.walk():
             i = get_id(op)
             if i is None:
                 continue
@@ -789,67 +914,94 @@ class C14(Prop):
                 else:
                     return [{"what": f"op {i} ({op.name}) is classified '{got}' by the dispatching rules; the property says '{want}'",
                              "finding": None}]
-        seeds = seeds_of(case, 3)
-        exp = {}
-        for s in seeds:
-            t0 = trace_of(orig, 0, s)
-            for core in range(nb):
-                exp[(core, s)] = [i for i in t0 if allowed(nb, core, cls[i])]
-                got = trace_of(mod, core, s)
-                if got != exp[(core, s)]:
-                    return [{"what": f"nb_cores={nb} core {core} (decisions seed {s}) executes ops {got} after dispatching; the original "
-                                     f"filtered by the rules is {exp[(core, s)]}", "finding": None}]
-        # the pin_to_constants annotation
+        from xdsl.dialects import arith
         from xdsl.dialects import func as fdial
-        calls = [o for o in find_func(mod).walk() if isinstance(o, fdial.CallOp) and get_id(o) is None]
-        if any(cls[i][0] or cls[i][1] for i in cls):
-            if len(calls) != 1:
-                return [{"what": f"{len(calls)} core-id calls emitted", "finding": None}]
-            pa = calls[0].attributes.get("pin_to_constants")
-            pins = None if pa is None else [a.value.data for a in pa.data]
-            if pins != list(range(nb)):
-                return [{"what": f"pin_to_constants = {pins}, expected {list(range(nb))}", "finding": None}]
-            if not has_decl(mod):
-                return [{"what": "snax_cluster_core_idx is called but not declared", "finding": None}]
-        # pinning (xDSL's pass handles single-block functions only)
-        if len(find_func(mod).body.blocks) == 1 and calls:
+        seeds = seeds_of(case, 3)
+        bodies = [f for f in funcs_of(mod) if f.body.blocks]
+        fnames = [f.sym_name.data for f in bodies]
+        if sorted(f.sym_name.data for f in funcs_of(orig) if f.body.blocks) != sorted(fnames):
+            return [{"what": "the pass added or removed a function with a body", "finding": None}]
+        # every function with a body is an entry point: executed per core (entering the functions it calls) it must run
+        # exactly the original execution filtered by the rule -- whatever its visibility
+        exp = {}
+        exp_own = {}
+        for fn in fnames:
+            vis = find_func(orig, fn).sym_visibility
+            desc = f"@{fn} ({'no visibility keyword' if vis is None else vis.data})"
+            for s in seeds:
+                t0 = trace_of(orig, 0, s, fn)
+                t0own = trace_of(orig, 0, s, fn, follow=False)
+                for core in range(nb):
+                    exp[(fn, core, s)] = [i for i in t0 if allowed(nb, core, cls[i])]
+                    exp_own[(fn, core, s)] = [i for i in t0own if allowed(nb, core, cls[i])]
+                    got = trace_of(mod, core, s, fn)
+                    if got != exp[(fn, core, s)]:
+                        return [{"what": f"function {desc}, nb_cores={nb}: core {core} (decisions seed {s}) executes ops {got} after "
+                                         f"dispatching; the original filtered by the rules is {exp[(fn, core, s)]}", "finding": None}]
+        # the pin_to_constants annotation, per function
+        any_call = False
+        for f in bodies:
+            fn = f.sym_name.data
+            calls = [o for o in f.walk() if isinstance(o, fdial.CallOp) and get_id(o) is None]
+            own = [get_id(o) for o in f.walk() if get_id(o) is not None]
+            if any(cls[i][0] or cls[i][1] for i in own):
+                if len(calls) != 1:
+                    return [{"what": f"function @{fn} has dispatchable ops but {len(calls)} core-id calls were emitted", "finding": None}]
+                pa = calls[0].attributes.get("pin_to_constants")
+                pins = None if pa is None else [a.value.data for a in pa.data]
+                if pins != list(range(nb)):
+                    return [{"what": f"@{fn}: pin_to_constants = {pins}, expected {list(range(nb))}", "finding": None}]
+                any_call = True
+            elif calls:
+                return [{"what": f"function @{fn} has no dispatchable op but got a core-id call", "finding": None}]
+        if any_call and not has_decl(mod):
+            return [{"what": "snax_cluster_core_idx is called but not declared", "finding": None}]
+        for f in funcs_of(mod):
+            if not f.body.blocks and snaxrun.text(find_func(orig, f.sym_name.data)) != snaxrun.text(f):
+                return [{"what": f"the external declaration @{f.sym_name.data} was changed", "finding": None}]
+        # pinning (xDSL's pass handles single-block functions only, and trips over any multi-block function of the module)
+        if any_call and all(len(f.body.blocks) == 1 for f in bodies):
             try:
                 apply_pinning(mod)
                 mod.verify()
             except BaseException as e:
-                return [{"what": f"function-constant-pinning failed on the dispatched function: {type(e).__name__}: {str(e)[:200]}",
+                return [{"what": f"function-constant-pinning failed on the dispatched module: {type(e).__name__}: {str(e)[:200]}",
                          "finding": None}]
-            for s in seeds[:2]:
-                for core in range(nb):
-                    got = trace_of(mod, core, s)
-                    if got != exp[(core, s)]:
-                        return [{"what": f"after pinning, nb_cores={nb} core {core} (seed {s}) executes {got}; filtered original is "
-                                         f"{exp[(core, s)]}", "finding": None}]
-            from xdsl.dialects import arith
-            seen = set()
-            fname = f.sym_name.data
-            for o in mod.ops:
-                if isinstance(o, fdial.FuncOp) and o.sym_name.data.startswith(fname + "_pinned") and o.body.blocks:
-                    first = o.body.block.first_op
-                    if not isinstance(first, arith.ConstantOp):
-                        return [{"what": f"{o.sym_name.data} does not start with the pinned constant", "finding": None}]
-                    k = first.value.value.data
-                    seen.add(k)
-                    s = seeds[0]
-                    got = trace_of(mod, (k + 1) % (nb + 1), s, o.sym_name.data)
-                    if 0 <= k < nb and got != exp[(k, s)]:
-                        return [{"what": f"specialisation {o.sym_name.data} (core id pinned to {k}) executes {got}; the original filtered "
-                                         f"for core {k} is {exp[(k, s)]}", "finding": None}]
-            if seen != set(range(nb)):
-                return [{"what": f"pinned specialisations exist for {sorted(seen)}, expected every core id below {nb}", "finding": None}]
+            for fn in fnames:
+                for s in seeds[:2]:
+                    for core in range(nb):
+                        got = trace_of(mod, core, s, fn)
+                        if got != exp[(fn, core, s)]:
+                            return [{"what": f"after pinning, function @{fn}, nb_cores={nb}: core {core} (seed {s}) executes {got}; filtered "
+                                             f"original is {exp[(fn, core, s)]}", "finding": None}]
+                own = [get_id(o) for o in find_func(mod, fn).walk() if get_id(o) is not None]
+                if not any(cls[i][0] or cls[i][1] for i in own):
+                    continue
+                seen = set()
+                for o in mod.ops:
+                    if isinstance(o, fdial.FuncOp) and o.sym_name.data.startswith(fn + "_pinned") and o.body.blocks:
+                        first = o.body.block.first_op
+                        if not isinstance(first, arith.ConstantOp):
+                            return [{"what": f"{o.sym_name.data} does not start with the pinned constant", "finding": None}]
+                        k = first.value.value.data
+                        seen.add(k)
+                        s = seeds[0]
+                        # the specialisation's own ops (callees keep asking for the real core id) on a DIFFERENT core
+                        got = trace_of(mod, (k + 1) % (nb + 1), s, o.sym_name.data, follow=False)
+                        if 0 <= k < nb and got != exp_own[(fn, k, s)]:
+                            return [{"what": f"specialisation {o.sym_name.data} (core id pinned to {k}) executes {got}; the original "
+                                             f"filtered for core {k} is {exp_own[(fn, k, s)]}", "finding": None}]
+                if seen != set(range(nb)):
+                    return [{"what": f"pinned specialisations of @{fn} exist for {sorted(seen)}, expected every core id below {nb}",
+                             "finding": None}]
         return res
 
     def nontrivial(self, case, impl_out):
-        if "func" not in impl_out:
+        if "funcs" not in impl_out:
             return False
         disp = any(r[2] is True or r[3] is True for r in impl_out["rules"])
-        regs = "reg" in str(impl_out["input"])
-        return disp and (regs or len(impl_out["input"]["blocks"]) >= 2)
+        regs = "reg" in str(impl_out["inputs"])
+        return disp and (regs or any(len(i["blocks"]) >= 2 for i in impl_out["inputs"]) or len(impl_out["inputs"]) >= 2)
 
     def stats_key(self, case, impl_out):
         k = case.get("kind", "case")
@@ -862,9 +1014,29 @@ class C14(Prop):
     def shrink(self, case):
         if "src" in case:
             return
-        blocks = case["blocks"]
         if case["nb"] > 2:
             yield dict(case, nb=2)
+        if "funcs" not in case:
+            for v in self.shrink_blocks(case["blocks"]):
+                yield dict(case, blocks=v)
+            return
+        funcs = case["funcs"]
+
+        def calls(ops, name):
+            return any(n[0] == "call" and n[1] == name or
+                       (n[0] == "if" and (calls(n[2], name) or calls(n[3] or [], name))) or
+                       (n[0] == "for" and calls(n[1], name)) or
+                       (n[0] == "top" and any(calls(r, name) for r in n[1])) for n in ops)
+
+        for i, fn in enumerate(funcs):  # drop a function nobody calls
+            if len(funcs) > 1 and not any(g["blocks"] and any(calls(b["ops"], fn["name"]) for b in g["blocks"]) for g in funcs):
+                yield dict(case, funcs=funcs[:i] + funcs[i + 1:])
+        for i, fn in enumerate(funcs):
+            if fn["blocks"] is not None:
+                for v in self.shrink_blocks(fn["blocks"]):
+                    yield dict(case, funcs=funcs[:i] + [dict(fn, blocks=v)] + funcs[i + 1:])
+
+    def shrink_blocks(self, blocks):
         # drop a block (never the entry block); branches into it fall through to its successor index or return
         for bi in range(1, len(blocks)):
             nb_ = []
@@ -880,7 +1052,7 @@ class C14(Prop):
                 if any(x == 0 for x in t[(2 if t[0] == "cbr" else 1):]):
                     t = ["ret"]
                 nb_.append(dict(b, term=t))
-            yield dict(case, blocks=nb_)
+            yield nb_
 
         def variants(ops):
             for i, node in enumerate(ops):
@@ -904,7 +1076,7 @@ class C14(Prop):
 
         for bi, b in enumerate(blocks):
             for v in variants(b["ops"]):
-                yield dict(case, blocks=blocks[:bi] + [dict(b, ops=v)] + blocks[bi + 1:])
+                yield blocks[:bi] + [dict(b, ops=v)] + blocks[bi + 1:]
 
 
 PROP = C14()
